@@ -111,6 +111,7 @@ impl PanicInfo {
 }
 
 thread_local! {
+    static IN_GUARD: std::cell::Cell<u32> = const { std::cell::Cell::new(0) };
     static LAST_PANIC: RefCell<Option<(String, String, Option<String>)>> = const { RefCell::new(None) };
 }
 
@@ -136,6 +137,10 @@ pub fn install_panic_hook() {
                 .unwrap_or_else(|| "<unknown>".into());
             let src = verif::current_src().map(|s| s.to_string());
             LAST_PANIC.with(|l| *l.borrow_mut() = Some((msg, loc, src)));
+            if IN_GUARD.with(|g| g.get()) == 0 {
+                // a panic of the harness itself (not of observed code): never swallow it
+                eprintln!("HARNESS-PANIC: {}", LAST_PANIC.with(|l| format!("{:?}", l.borrow())));
+            }
             if std::env::var_os("VMON_PANIC_TRACE").is_some() {
                 eprintln!("panic: {}", LAST_PANIC.with(|l| format!("{:?}", l.borrow())));
             }
@@ -148,7 +153,10 @@ pub fn guarded<T>(f: impl FnOnce() -> T) -> Result<T, PanicInfo> {
     install_panic_hook();
     verif::reset();
     LAST_PANIC.with(|l| *l.borrow_mut() = None);
-    match catch_unwind(AssertUnwindSafe(f)) {
+    IN_GUARD.with(|g| g.set(g.get() + 1));
+    let caught = catch_unwind(AssertUnwindSafe(f));
+    IN_GUARD.with(|g| g.set(g.get().saturating_sub(1)));
+    match caught {
         Ok(v) => Ok(v),
         Err(payload) => {
             verif::reset();
@@ -160,6 +168,7 @@ pub fn guarded<T>(f: impl FnOnce() -> T) -> Result<T, PanicInfo> {
             } else if payload.downcast_ref::<verif::DepthExhausted>().is_some() {
                 PanicKind::Depth
             } else if msg.contains("capacity overflow")
+                || msg.contains("LayoutError")
                 || msg.contains("memory allocation")
                 || msg.contains("alloc")
                     && (msg.contains("too large") || msg.contains("exceeds"))
